@@ -62,6 +62,13 @@ func (core *JApiCore) CheckRawPathVariableSchemas() *jerr.JApiError {
 		if err := checkPathSchema(core.rawPathVariables[i].schema); err != nil {
 			return core.rawPathVariables[i].pathDirective.KeywordError(err.Error())
 		}
+		// The types of the properties are checked here, for every Path directive: the check made while the
+		// path variables of the interactions are built sees only the Path directives some interaction uses.
+		for _, v := range core.rawPathVariables[i].schema.ContentJSight.Children {
+			if err := core.collectUsedUserTypes(v, catalog.NewStringSet()); err != nil {
+				return core.rawPathVariables[i].pathDirective.KeywordError(err.Error())
+			}
+		}
 	}
 	return nil
 }
